@@ -13,10 +13,18 @@
 //!              (what CoreRuntime::step does while `in_interrupt`); only `last` changes, which is what a later
 //!              ["s"] hands to apply_snapshot_info as the restored cycle counter
 //!   ["R"]      TimerContext::reset(0): power-on style reset, the clock restarts at cycle 0
+//!   ["k", n]   host keyboard activity (only acted upon when the case says "kbd": true, see below):
+//!              n > 0: n key events are waiting in the host's keyboard, the next scan reports them;
+//!              n = 0: the host sets the public `key_irq_latched` flag (as CoreRuntime does for a latched KEYI)
+//! With "kbd": true every tick goes through `TimerContext::tick_timers_with_keyboard` -- the wrapper that
+//! CoreRuntime::step / the HALT idle path / the device task really call -- with a scan closure that reports the
+//! events queued by ["k", n] (the closure is the host's keyboard; it is only invoked when MTI fires);
+//! "kbirq": false calls `set_keyboard_irq_enabled(false)` first.
 //! "machine" verb: the same timer inside `CoreRuntime::step` (NOP / WAIT / HALT programs), see run_machine().
 //! Observation per tick: [fired_mti | fired_sti<<1, next_mti, next_sti, ISR byte after the tick];
 //! per reset/snapshot: [next_mti, next_sti]; per write: [ISR].
 use crate::util::{err, get_bool, get_u64};
+use sc62015_core::keyboard::KeyboardMatrix;
 use sc62015_core::memory::MemoryImage;
 use sc62015_core::timer::TimerContext;
 use sc62015_core::{CoreRuntime, InterruptInfo, TimerInfo};
@@ -27,8 +35,24 @@ pub struct State {}
 
 const ISR: u32 = 0xFC;
 
-fn tick(ctx: &mut TimerContext, mem: &mut MemoryImage, c: u64) -> Value {
-    let (m, s) = ctx.tick_timers(mem, c, None);
+fn tick(ctx: &mut TimerContext, mem: &mut MemoryImage, c: u64, kbd: Option<&mut usize>) -> Value {
+    let (m, s) = match kbd {
+        None => ctx.tick_timers(mem, c, None),
+        Some(waiting) => {
+            let (m, s, _events, _stats) = ctx.tick_timers_with_keyboard(
+                mem,
+                c,
+                |_mem| {
+                    let n = *waiting;
+                    *waiting = 0;
+                    (n, n > 0, None)
+                },
+                None,
+                None,
+            );
+            (m, s)
+        }
+    };
     let isr = mem.read_internal_byte(ISR).unwrap_or(0);
     json!([(m as u8) | ((s as u8) << 1), ctx.next_mti, ctx.next_sti, isr])
 }
@@ -56,6 +80,11 @@ fn run_case(case: &Value) -> Value {
     let mti = get_u64(case, "mti", 0).min(i32::MAX as u64) as i32;
     let sti = get_u64(case, "sti", 0).min(i32::MAX as u64) as i32;
     let mut ctx = TimerContext::new(enabled, mti, sti);
+    let kbd = get_bool(case, "kbd", false);
+    if kbd && !get_bool(case, "kbirq", true) {
+        ctx.set_keyboard_irq_enabled(false);
+    }
+    let mut waiting: usize = 0;
     let mut mem = MemoryImage::new();
     mem.write_internal_byte(ISR, get_u64(case, "isr0", 0) as u8);
     let limit = get_u64(case, "runaway", 0);
@@ -76,13 +105,15 @@ fn run_case(case: &Value) -> Value {
         match verb {
             "t" => {
                 last = arg;
-                obs.push(tick(&mut ctx, &mut mem, arg));
+                let w = if kbd { Some(&mut waiting) } else { None };
+                obs.push(tick(&mut ctx, &mut mem, arg, w));
             }
             "b" => {
                 let mut burst: Vec<Value> = Vec::with_capacity(arg as usize);
                 for _ in 0..arg {
                     last += 1;
-                    burst.push(tick(&mut ctx, &mut mem, last));
+                    let w = if kbd { Some(&mut waiting) } else { None };
+                    burst.push(tick(&mut ctx, &mut mem, last, w));
                 }
                 obs.push(Value::Array(burst));
             }
@@ -117,6 +148,16 @@ fn run_case(case: &Value) -> Value {
                 last = arg;
                 obs.push(json!([ctx.next_mti, ctx.next_sti]));
             }
+            "k" => {
+                if kbd {
+                    if arg > 0 {
+                        waiting += arg as usize;
+                    } else {
+                        ctx.key_irq_latched = true;
+                    }
+                }
+                obs.push(json!([ctx.key_irq_latched, waiting]));
+            }
             "R" => {
                 ctx.reset(0);
                 last = 0;
@@ -135,8 +176,11 @@ fn run_case(case: &Value) -> Value {
 /// time.  Per step the harness may first clear ISR bits (firmware acknowledging), push the runtime through
 /// `save_snapshot` -> fresh `CoreRuntime` -> `load_snapshot` (action 1), or reset the machine the way the PyO3
 /// wrapper's power_on_reset does (`power_on_reset()` + `timer.reset_full(cycle_count)`, action 2).
+/// Before a step the host may also press / release keys of the runtime's KeyboardMatrix and strobe its columns
+/// (third element of a step: key ops); "kbirq" selects `TimerContext::set_keyboard_irq_enabled`.
 /// Observation after each step:
-/// [cycle_count, ISR, next_mti, next_sti, halted, pc, in_interrupt, irq_total, in_interrupt before the step].
+/// [cycle_count, ISR, next_mti, next_sti, halted, pc, in_interrupt, irq_total, in_interrupt before the step,
+///  pc before the step].
 fn look(rt: &CoreRuntime) -> Vec<Value> {
     let isr = rt.memory.read_internal_byte(ISR).unwrap_or(0);
     vec![
@@ -199,6 +243,10 @@ fn run_machine(case: &Value) -> Value {
     if let Some(b) = case.get("timer_base").and_then(|v| v.as_u64()) {
         rt.timer.reset(b);
     }
+    if case.get("kbirq").is_some() {
+        rt.timer
+            .set_keyboard_irq_enabled(get_bool(case, "kbirq", true));
+    }
     let mut obs: Vec<Value> = Vec::new();
     let empty = Vec::new();
     let steps = case.get("steps").and_then(|v| v.as_array()).unwrap_or(&empty);
@@ -236,12 +284,43 @@ fn run_machine(case: &Value) -> Value {
             rt.memory.write_internal_byte(ISR, 0);
             obs.push(json!({"reset": look(&rt)}));
         }
+        // host keyboard activity before this step: [["kd", name], ["ku", name], ["kol", v], ["koh", v]]
+        if let Some(kops) = st.get(2).and_then(|v| v.as_array()) {
+            for kop in kops {
+                let kind = kop.get(0).and_then(|v| v.as_str()).unwrap_or("");
+                let rtm = &mut rt;
+                let Some(kb) = rtm.keyboard.as_mut() else {
+                    return json!({"error": "runtime has no keyboard", "obs": obs});
+                };
+                match kind {
+                    "kd" | "ku" => {
+                        let name = kop.get(1).and_then(|v| v.as_str()).unwrap_or("");
+                        let Some(code) = KeyboardMatrix::matrix_code_for_key_name(name) else {
+                            return json!({"error": format!("unknown key {name}"), "obs": obs});
+                        };
+                        if kind == "kd" {
+                            kb.press_matrix_code(code, &mut rtm.memory);
+                        } else {
+                            kb.release_matrix_code(code, &mut rtm.memory);
+                        }
+                    }
+                    "kol" | "koh" => {
+                        let v = kop.get(1).and_then(|v| v.as_u64()).unwrap_or(0) as u8;
+                        let off = if kind == "kol" { 0xF0 } else { 0xF1 };
+                        kb.handle_write(off, v, &mut rtm.memory);
+                    }
+                    _ => return json!({"error": format!("unknown key op {kind}"), "obs": obs}),
+                }
+            }
+        }
         let in_before = rt.timer.in_interrupt;
+        let pc_before = rt.state.pc();
         if let Err(e) = rt.step(1) {
             return json!({"error": format!("step: {e}"), "obs": obs});
         }
         let mut o = look(&rt);
         o.push(json!(in_before));
+        o.push(json!(pc_before));
         obs.push(Value::Array(o));
     }
     json!({"obs": obs})
